@@ -143,6 +143,8 @@ def build_alphabet(darsia):
 
         if kind.endswith("_big") or kind.endswith("_big_aa"):
             shape = (8, 9)  # 72 cells: the reduced matrices are no longer stored with sorted indices
+        if kind.endswith("_multilevel"):
+            shape = (12, 11)  # 132 cells: pyamg builds a genuine hierarchy (more than max_coarse unknowns)
 
         r = np.random.default_rng(100 + pair)
         a, b = W.mass_pair(r, shape, "dense")
@@ -159,6 +161,8 @@ def build_alphabet(darsia):
             "bregman_L2_flux_reduced": ("bregman", "flux_reduced", "direct", 0),
             "bregman_amg_custom": ("bregman", "pressure", "amg", 0),
             "bregman_big": ("bregman", "pressure", "direct", 0),
+            "bregman_amg_multilevel": ("bregman", "pressure", "amg", 0),
+            "newton_cg_multilevel": ("newton", "pressure", "cg", 0),
             "bregman_big_aa": ("bregman", "pressure", "direct", 2),
             "newton_big": ("newton", "pressure", "direct", 0),
             "newton_aa_restart": ("newton", "full", "direct", 3),
@@ -232,6 +236,9 @@ def build_alphabet(darsia):
         "w_bregman_big_aa_B": lambda: wass("bregman_big_aa", 1),
         "w_newton_big_A": lambda: wass("newton_big", 0),
         "w_newton_big_B": lambda: wass("newton_big", 1),
+        "w_bregman_amg_multilevel_A": lambda: wass("bregman_amg_multilevel", 0),
+        "w_bregman_amg_multilevel_B": lambda: wass("bregman_amg_multilevel", 1),
+        "w_newton_cg_multilevel_A": lambda: wass("newton_cg_multilevel", 0),
         "w_adaptive_homog_A": lambda: wass("adaptive_homogeneous", 0),
         "w_adaptive_homog_B": lambda: wass("adaptive_homogeneous", 1),
         "w_newton_aa_restart_A": lambda: wass("newton_aa_restart", 0),
@@ -265,7 +272,7 @@ LETTERS = [
     "aa_d2r3_head", "aa_d2r3_tail", "aa_d3r2_head", "aa_d3r2_tail", "w_adaptive_homog_A", "w_adaptive_homog_B", "w_newton_aa_restart_A", "w_newton_aa_restart_B",
     "mg2_small", "mg2_regular", "w_bregman_L2_A", "w_bregman_L2_B", "w_bregman_L2fr_A", "w_bregman_L2fr_B", "w_bregman_amg_custom",
     "w_bregman_big_A", "w_bregman_big_B", "w_bregman_big_aa_A", "w_bregman_big_aa_B", "w_newton_big_A", "w_newton_big_B",
-    "tvd_obj_A", "tvd_obj_B", "tvd_obj_x0",
+    "tvd_obj_A", "tvd_obj_B", "tvd_obj_x0", "w_bregman_amg_multilevel_A", "w_bregman_amg_multilevel_B", "w_newton_cg_multilevel_A",
 ]
 # letters that can share state with each other (same object or same module-level default)
 GROUPS = {
@@ -278,6 +285,7 @@ GROUPS = {
     "sb_explicit": ["sb_explicit"],
     "tvd_object": ["tvd_obj_A", "tvd_obj_B"],
     "tvd_object_x0": ["tvd_obj_x0"],
+    "w_amg_multilevel": ["w_bregman_amg_multilevel_A", "w_bregman_amg_multilevel_B", "w_newton_cg_multilevel_A", "w_bregman_amg_custom"],
     "tvd": ["tvd_chambolle"],
     "anderson": ["aa_seq1", "aa_seq2"],
     "w_newton": ["w_newton_A", "w_newton_B"],
